@@ -2,178 +2,178 @@
 # GENERATED FILE — do not edit
 
 Written by `tools/gen_constants.py` from the Rust sources of nomt (working tree of `/repo`; the
-source file and line of every value is given in its doc comment).  `tools/check.py` and
+source file of every value is given in its doc comment).  `tools/check.py` and
 `tools/setup.py` regenerate it on every run; `Store/ConstantsCheck.lean` ties the hand-written
 constants of the Lean decoders and models to these values.
 -/
 namespace Nomt.Gen
 
-/-- nomt/src/io/mod.rs:25: `pub const PAGE_SIZE: usize = 4096;` -/
+/-- nomt/src/io/mod.rs: `pub const PAGE_SIZE: usize = 4096;` -/
 def PAGE_SIZE : Nat := 4096
 
-/-- nomt/src/beatree/leaf/node.rs:36: `pub const LEAF_NODE_BODY_SIZE: usize = PAGE_SIZE - 2;` -/
+/-- nomt/src/beatree/leaf/node.rs: `pub const LEAF_NODE_BODY_SIZE: usize = PAGE_SIZE - 2;` -/
 def LEAF_NODE_BODY_SIZE : Nat := 4094
 
-/-- nomt/src/beatree/leaf/node.rs:39: `pub const MAX_LEAF_VALUE_SIZE: usize = (LEAF_NODE_BODY_SIZE / 3) - 32;` -/
+/-- nomt/src/beatree/leaf/node.rs: `pub const MAX_LEAF_VALUE_SIZE: usize = (LEAF_NODE_BODY_SIZE / 3) - 32;` -/
 def MAX_LEAF_VALUE_SIZE : Nat := 1332
 
-/-- nomt/src/beatree/leaf/node.rs:44: `pub const MAX_OVERFLOW_CELL_NODE_POINTERS: usize = 15;` -/
+/-- nomt/src/beatree/leaf/node.rs: `pub const MAX_OVERFLOW_CELL_NODE_POINTERS: usize = 15;` -/
 def MAX_OVERFLOW_CELL_NODE_POINTERS : Nat := 15
 
-/-- nomt/src/beatree/leaf/node.rs:47: `pub const MAX_OVERFLOW_VALUE_SIZE: usize = 1 << 29;` -/
+/-- nomt/src/beatree/leaf/node.rs: `pub const MAX_OVERFLOW_VALUE_SIZE: usize = 1 << 29;` -/
 def MAX_OVERFLOW_VALUE_SIZE : Nat := 536870912
 
-/-- nomt/src/beatree/leaf/node.rs:50: `const OVERFLOW_BIT: u16 = 1 << 15;` -/
+/-- nomt/src/beatree/leaf/node.rs: `const OVERFLOW_BIT: u16 = 1 << 15;` -/
 def LEAF_OVERFLOW_BIT : Nat := 32768
 
-/-- nomt/src/beatree/ops/overflow.rs:21: `const BODY_SIZE: usize = PAGE_SIZE - 4;` -/
+/-- nomt/src/beatree/ops/overflow.rs: `const BODY_SIZE: usize = PAGE_SIZE - 4;` -/
 def OVERFLOW_BODY_SIZE : Nat := 4092
 
-/-- nomt/src/beatree/ops/overflow.rs:22: `const MAX_PNS: usize = BODY_SIZE / 4;` -/
+/-- nomt/src/beatree/ops/overflow.rs: `const MAX_PNS: usize = BODY_SIZE / 4;` -/
 def OVERFLOW_MAX_PNS : Nat := 1023
 
-/-- nomt/src/beatree/ops/overflow.rs:23: `const HEADER_SIZE: usize = 4;` -/
+/-- nomt/src/beatree/ops/overflow.rs: `const HEADER_SIZE: usize = 4;` -/
 def OVERFLOW_HEADER_SIZE : Nat := 4
 
-/-- nomt/src/beatree/allocator/free_list.rs:9: `const MAX_PNS_PER_PAGE: usize = (PAGE_SIZE - 6) / 4;` -/
+/-- nomt/src/beatree/allocator/free_list.rs: `const MAX_PNS_PER_PAGE: usize = (PAGE_SIZE - 6) / 4;` -/
 def FREELIST_MAX_PNS_PER_PAGE : Nat := 1022
 
-/-- nomt/src/beatree/allocator/mod.rs:175: `const GROW_STORE_BY_PAGES: u32 = 8192;` -/
+/-- nomt/src/beatree/allocator/mod.rs: `const GROW_STORE_BY_PAGES: u32 = 8192;` -/
 def GROW_STORE_BY_PAGES : Nat := 8192
 
-/-- nomt/src/beatree/branch/mod.rs:4: `pub const BRANCH_NODE_SIZE: usize = 4096;` -/
+/-- nomt/src/beatree/branch/mod.rs: `pub const BRANCH_NODE_SIZE: usize = 4096;` -/
 def BRANCH_NODE_SIZE : Nat := 4096
 
-/-- nomt/src/beatree/branch/node.rs:39: `const BRANCH_NODE_HEADER_SIZE: usize = 4 + 2 + 2 + 2;` -/
+/-- nomt/src/beatree/branch/node.rs: `const BRANCH_NODE_HEADER_SIZE: usize = 4 + 2 + 2 + 2;` -/
 def BRANCH_NODE_HEADER_SIZE : Nat := 10
 
-/-- nomt/src/beatree/branch/node.rs:40: `pub const BRANCH_NODE_BODY_SIZE: usize = BRANCH_NODE_SIZE - BRANCH_NODE_HEADER_SIZE;` -/
+/-- nomt/src/beatree/branch/node.rs: `pub const BRANCH_NODE_BODY_SIZE: usize = BRANCH_NODE_SIZE - BRANCH_NODE_HEADER_SIZE;` -/
 def BRANCH_NODE_BODY_SIZE : Nat := 4086
 
-/-- nomt/src/merkle/mod.rs:47: `pub const PAGE_ELISION_THRESHOLD: u64 = 20;` -/
+/-- nomt/src/merkle/mod.rs: `pub const PAGE_ELISION_THRESHOLD: u64 = 20;` -/
 def PAGE_ELISION_THRESHOLD : Nat := 20
 
-/-- core/src/page.rs:23: `pub const DEPTH: usize = 6;` -/
+/-- core/src/page.rs: `pub const DEPTH: usize = 6;` -/
 def DEPTH : Nat := 6
 
-/-- core/src/page.rs:28: `pub const NODES_PER_PAGE: usize = (1 << DEPTH + 1) - 2;` -/
+/-- core/src/page.rs: `pub const NODES_PER_PAGE: usize = (1 << DEPTH + 1) - 2;` -/
 def NODES_PER_PAGE : Nat := 126
 
-/-- core/src/page_id.rs:25: `pub const MAX_PAGE_DEPTH: usize = 42;` -/
+/-- core/src/page_id.rs: `pub const MAX_PAGE_DEPTH: usize = 42;` -/
 def MAX_PAGE_DEPTH : Nat := 42
 
-/-- core/src/page_id.rs:47: `pub const MAX_CHILD_INDEX: u8 = (1 << DEPTH) - 1;` -/
+/-- core/src/page_id.rs: `pub const MAX_CHILD_INDEX: u8 = (1 << DEPTH) - 1;` -/
 def MAX_CHILD_INDEX : Nat := 63
 
-/-- core/src/page_id.rs:50: `pub const NUM_CHILDREN: usize = MAX_CHILD_INDEX as usize + 1;` -/
+/-- core/src/page_id.rs: `pub const NUM_CHILDREN: usize = MAX_CHILD_INDEX as usize + 1;` -/
 def NUM_CHILDREN : Nat := 64
 
-/-- nomt/src/bitbox/meta_map.rs:3: `const EMPTY: u8 = 0b0000_0000;` -/
+/-- nomt/src/bitbox/meta_map.rs: `const EMPTY: u8 = 0b0000_0000;` -/
 def EMPTY : Nat := 0
 
-/-- nomt/src/bitbox/meta_map.rs:4: `const TOMBSTONE: u8 = 0b0111_1111;` -/
+/-- nomt/src/bitbox/meta_map.rs: `const TOMBSTONE: u8 = 0b0111_1111;` -/
 def TOMBSTONE : Nat := 127
 
-/-- nomt/src/bitbox/meta_map.rs:5: `const FULL_MASK: u8 = 0b1000_0000;` -/
+/-- nomt/src/bitbox/meta_map.rs: `const FULL_MASK: u8 = 0b1000_0000;` -/
 def FULL_MASK : Nat := 128
 
-/-- nomt/src/store/meta.rs:10: `pub(crate) const META_SIZE: usize = 64;` -/
+/-- nomt/src/store/meta.rs: `pub(crate) const META_SIZE: usize = 64;` -/
 def META_SIZE : Nat := 64
 
-/-- nomt/src/store/meta.rs:9: `pub(crate) const VERSION: u32 = 1;` -/
+/-- nomt/src/store/meta.rs: `pub(crate) const VERSION: u32 = 1;` -/
 def META_VERSION : Nat := 1
 
-/-- nomt/src/seglog/mod.rs:39: `const RECORD_ALIGNMENT: u32 = 4096;` -/
+/-- nomt/src/seglog/mod.rs: `const RECORD_ALIGNMENT: u32 = 4096;` -/
 def SEGLOG_RECORD_ALIGNMENT : Nat := 4096
 
-/-- nomt/src/seglog/mod.rs:40: `const HEADER_SIZE: u32 = 12;` -/
+/-- nomt/src/seglog/mod.rs: `const HEADER_SIZE: u32 = 12;` -/
 def SEGLOG_HEADER_SIZE : Nat := 12
 
-/-- nomt/src/seglog/mod.rs:41: `const MAX_RECORD_PAYLOAD_SIZE: u32 = 1 << 30;` -/
+/-- nomt/src/seglog/mod.rs: `const MAX_RECORD_PAYLOAD_SIZE: u32 = 1 << 30;` -/
 def SEGLOG_MAX_RECORD_PAYLOAD_SIZE : Nat := 1073741824
 
-/-- nomt/src/lib.rs:61: `const MAX_COMMIT_CONCURRENCY: usize = 64;` -/
+/-- nomt/src/lib.rs: `const MAX_COMMIT_CONCURRENCY: usize = 64;` -/
 def MAX_COMMIT_CONCURRENCY : Nat := 64
 
-/-- nomt/src/store/meta.rs:8: `pub(crate) const MAGIC: [u8; 4] = *b"NOMT";` read as a little-endian u32 -/
+/-- nomt/src/store/meta.rs: `pub(crate) const MAGIC: [u8; 4] = *b"NOMT";` read as a little-endian u32 -/
 def META_MAGIC : Nat := 1414352718
 
-/-- nomt/src/store/meta.rs:68: `buf[0..4]` <- `self.magic` (encode_to; decode reads the same range) -/
+/-- nomt/src/store/meta.rs: `buf[0..4]` <- `self.magic` (encode_to; decode reads the same range) -/
 def META_MAGIC_START : Nat := 0
 
-/-- nomt/src/store/meta.rs:68 -/
+/-- nomt/src/store/meta.rs -/
 def META_MAGIC_END : Nat := 4
 
-/-- nomt/src/store/meta.rs:69: `buf[4..8]` <- `self.version` (encode_to; decode reads the same range) -/
+/-- nomt/src/store/meta.rs: `buf[4..8]` <- `self.version` (encode_to; decode reads the same range) -/
 def META_VERSION_START : Nat := 4
 
-/-- nomt/src/store/meta.rs:69 -/
+/-- nomt/src/store/meta.rs -/
 def META_VERSION_END : Nat := 8
 
-/-- nomt/src/store/meta.rs:70: `buf[8..12]` <- `self.ln_freelist_pn` (encode_to; decode reads the same range) -/
+/-- nomt/src/store/meta.rs: `buf[8..12]` <- `self.ln_freelist_pn` (encode_to; decode reads the same range) -/
 def META_LN_FREELIST_PN_START : Nat := 8
 
-/-- nomt/src/store/meta.rs:70 -/
+/-- nomt/src/store/meta.rs -/
 def META_LN_FREELIST_PN_END : Nat := 12
 
-/-- nomt/src/store/meta.rs:71: `buf[12..16]` <- `self.ln_bump` (encode_to; decode reads the same range) -/
+/-- nomt/src/store/meta.rs: `buf[12..16]` <- `self.ln_bump` (encode_to; decode reads the same range) -/
 def META_LN_BUMP_START : Nat := 12
 
-/-- nomt/src/store/meta.rs:71 -/
+/-- nomt/src/store/meta.rs -/
 def META_LN_BUMP_END : Nat := 16
 
-/-- nomt/src/store/meta.rs:72: `buf[16..20]` <- `self.bbn_freelist_pn` (encode_to; decode reads the same range) -/
+/-- nomt/src/store/meta.rs: `buf[16..20]` <- `self.bbn_freelist_pn` (encode_to; decode reads the same range) -/
 def META_BBN_FREELIST_PN_START : Nat := 16
 
-/-- nomt/src/store/meta.rs:72 -/
+/-- nomt/src/store/meta.rs -/
 def META_BBN_FREELIST_PN_END : Nat := 20
 
-/-- nomt/src/store/meta.rs:73: `buf[20..24]` <- `self.bbn_bump` (encode_to; decode reads the same range) -/
+/-- nomt/src/store/meta.rs: `buf[20..24]` <- `self.bbn_bump` (encode_to; decode reads the same range) -/
 def META_BBN_BUMP_START : Nat := 20
 
-/-- nomt/src/store/meta.rs:73 -/
+/-- nomt/src/store/meta.rs -/
 def META_BBN_BUMP_END : Nat := 24
 
-/-- nomt/src/store/meta.rs:74: `buf[24..28]` <- `self.sync_seqn` (encode_to; decode reads the same range) -/
+/-- nomt/src/store/meta.rs: `buf[24..28]` <- `self.sync_seqn` (encode_to; decode reads the same range) -/
 def META_SYNC_SEQN_START : Nat := 24
 
-/-- nomt/src/store/meta.rs:74 -/
+/-- nomt/src/store/meta.rs -/
 def META_SYNC_SEQN_END : Nat := 28
 
-/-- nomt/src/store/meta.rs:75: `buf[28..32]` <- `self.bitbox_num_pages` (encode_to; decode reads the same range) -/
+/-- nomt/src/store/meta.rs: `buf[28..32]` <- `self.bitbox_num_pages` (encode_to; decode reads the same range) -/
 def META_BITBOX_NUM_PAGES_START : Nat := 28
 
-/-- nomt/src/store/meta.rs:75 -/
+/-- nomt/src/store/meta.rs -/
 def META_BITBOX_NUM_PAGES_END : Nat := 32
 
-/-- nomt/src/store/meta.rs:76: `buf[32..48]` <- `self.bitbox_seed` (encode_to; decode reads the same range) -/
+/-- nomt/src/store/meta.rs: `buf[32..48]` <- `self.bitbox_seed` (encode_to; decode reads the same range) -/
 def META_BITBOX_SEED_START : Nat := 32
 
-/-- nomt/src/store/meta.rs:76 -/
+/-- nomt/src/store/meta.rs -/
 def META_BITBOX_SEED_END : Nat := 48
 
-/-- nomt/src/store/meta.rs:77: `buf[48..56]` <- `self.rollback_start_live` (encode_to; decode reads the same range) -/
+/-- nomt/src/store/meta.rs: `buf[48..56]` <- `self.rollback_start_live` (encode_to; decode reads the same range) -/
 def META_ROLLBACK_START_LIVE_START : Nat := 48
 
-/-- nomt/src/store/meta.rs:77 -/
+/-- nomt/src/store/meta.rs -/
 def META_ROLLBACK_START_LIVE_END : Nat := 56
 
-/-- nomt/src/store/meta.rs:78: `buf[56..64]` <- `self.rollback_end_live` (encode_to; decode reads the same range) -/
+/-- nomt/src/store/meta.rs: `buf[56..64]` <- `self.rollback_end_live` (encode_to; decode reads the same range) -/
 def META_ROLLBACK_END_LIVE_START : Nat := 56
 
-/-- nomt/src/store/meta.rs:78 -/
+/-- nomt/src/store/meta.rs -/
 def META_ROLLBACK_END_LIVE_END : Nat := 64
 
-/-- nomt/src/bitbox/meta_map.rs:8: `full_entry`: the tag is `hash >> 57` -/
+/-- nomt/src/bitbox/meta_map.rs: `full_entry`: the tag is `hash >> 57` -/
 def FULL_ENTRY_SHIFT : Nat := 57
 
-/-- nomt/src/bitbox/meta_map.rs:62: `MetaMap::page_index` -/
+/-- nomt/src/bitbox/meta_map.rs: `MetaMap::page_index` -/
 def META_BYTES_PER_PAGE : Nat := 4096
 
-/-- nomt/src/bitbox/mod.rs:684: `allocate_bucket`: gives up when its counter reaches this value -/
+/-- nomt/src/bitbox/mod.rs: `allocate_bucket`: gives up when its counter reaches this value -/
 def ALLOCATE_BUCKET_ATTEMPTS : Nat := 10000
 
-/-- nomt/src/bitbox/mod.rs:791: `ProbeSequence::next`: `step > 2 * len` => `Exhausted` -/
+/-- nomt/src/bitbox/mod.rs: `ProbeSequence::next`: `step > 2 * len` => `Exhausted` -/
 def PROBE_BOUND_FACTOR : Nat := 2
 
 end Nomt.Gen
